@@ -31,3 +31,12 @@ for f in sorted(glob.glob("/repo/atomica/*.py")):
 json.dump(cmp, open(os.path.join(os.path.dirname(alpha.TABLE), "comparisons.json"), "w"), indent=0, sort_keys=True)
 print(sum(len(x["cmp"]) for v in cmp.values() for x in v.values()), "comparisons,", sum(len(x["tests"]) for v in cmp.values() for x in v.values()), "if/else tests")
 print(sum(len(v) for v in out.values()), "functions,", sum(len(x) for v in out.values() for x in v.values()), "locals")
+
+# fields stored on self per class and the attribute vocabulary of the package (reference of alpha.canonicalise_attributes)
+trees = {}
+for f in sorted(glob.glob("/repo/atomica/*.py")):
+    trees[os.path.basename(f)[:-3]] = ast.parse(open(f).read())
+voc, _ = alpha.attribute_vocabulary(trees.values())
+classes = {mod: {c.name: {k: list(v) for k, v in alpha.class_fields(c).items()} for c in t.body if isinstance(c, ast.ClassDef)} for mod, t in trees.items()}
+json.dump({"vocabulary": sorted(voc), "classes": classes}, open(os.path.join(os.path.dirname(alpha.TABLE), "attributes.json"), "w"), indent=0, sort_keys=True)
+print(len(voc), "attribute names,", sum(len(x) for v in classes.values() for x in v.values()), "fields")
